@@ -14,7 +14,7 @@
 import Driver.ProtoMesh
 import FcModel.Extend
 import FcModel.Spec.C17
-namespace Fc.Drv
+namespace Fc.Drv.C17
 open Fc
 
 /-- cell stages of `mesh_equal` for two meshes with the same set of cell-type names:
@@ -40,7 +40,7 @@ def hypC17 (s r : MeshFields) : Bool :=
   s.mesh.cellTypes.all (r.mesh.cellTypes.contains ·) && r.mesh.cellTypes.all (s.mesh.cellTypes.contains ·) &&
   decide ((s.namedFields.map (·.1)).Nodup) && decide ((r.namedFields.map (·.1)).Nodup) &&
   s.namedFields.all (fieldDTypeOk ·.2) && r.namedFields.all (fieldDTypeOk ·.2) &&
-  (findMatches s.namedFields r.namedFields).all (fun p => p.1.dtype == p.2.dtype)
+  (findFieldMatches s.namedFields r.namedFields).all (fun p => p.1.dtype == p.2.dtype)
 
 def showOptBool : Option Bool → String
   | some true => "T"
@@ -90,4 +90,7 @@ def handleC17 (op : String) : Option (P String) :=
   | "c17.zero" => some opZero
   | _ => none
 
-end Fc.Drv
+end Fc.Drv.C17
+
+/-- re-export for Driver/Main.lean -/
+def Fc.Drv.handleC17 := Fc.Drv.C17.handleC17
